@@ -74,6 +74,7 @@ pub fn generate_case(prop: &dyn Property, seed: u64, index: u64, tier: Tier) -> 
         match mix(&[seed, prop_tag(prop.id()), index, 0x9a3e]) % 10 {
             0 => case.set("names", 1),
             1 => case.set("names", 2),
+            2 => case.set("names", 3),
             _ => {}
         }
     }
@@ -130,7 +131,7 @@ pub fn full_check(prop: &dyn Property, case: &Case, ctx: &mut Ctx) -> Result<Opt
     if case.param("aborted_run_before") == 1 {
         aborted_run_before(case, ctx);
     }
-    ctx.name_style = case.param("names").clamp(0, 2) as u8;
+    ctx.name_style = case.param("names").clamp(0, 3) as u8;
     ctx.isolate_runs = case.param("isolated_runs") == 1;
     if ctx.isolate_runs {
         ctx.stats.probe("every run of the scenario in a thread of its own");
